@@ -27,7 +27,9 @@ CONSTANTS MaxH,      \* (A) largest local head number explored
           MaxBatch,  \* (B) proto.MaxBlocksFromNumber  (1024 in the code; small in the model)
           RawCap,    \* (B) capacity of the rawBatches channel (10)
           WarmCap,   \* (B) capacity of the warmedUp channel (2048)
-          Slack      \* (B) set of k: download starts from an ancestor k below the true one (0 = exact)
+          Slack,     \* (B) set of k: download starts from an ancestor k below the true one (0 = exact)
+          DecListens \* (B) the decoder stage selects on the group context while it is blocked on the warmedUp channel
+                     \*     (TRUE in the code; FALSE only in the negative configuration that shows BTerminates is not vacuous)
 
 Nil == [id |-> <<"nil", 0>>]          \* the throttle token of decodeAndWarmupBatches
 None == [start |-> 0, bs |-> <<>>, i |-> 0]
@@ -67,45 +69,49 @@ SeekExhausted ==
   /\ apc' = "find" /\ st' = 0 /\ en' = aH /\ anc' = 0
   /\ UNCHANGED <<aH, aA, aR, bw, res, probes>>
 
-\* fastSeek, one probe of height headNum - backward
-SeekProbe ==
+\* fastSeek, one probe of height headNum - backward; ov: the peer's id equals the local one (isOverlapped)
+SeekProbeO(ov) ==
   /\ apc = "seek" /\ bw < aH
   /\ LET n == aH - bw IN
      /\ probes' = Append(probes, n)
-     /\ IF Overlapped(n)
+     /\ IF ov
         THEN IF n = aH
              THEN apc' = "done" /\ res' = aH /\ UNCHANGED <<bw, st, en, anc>>        \* seekNum == headNum
              ELSE apc' = "find" /\ st' = n /\ en' = aH /\ anc' = 0 /\ UNCHANGED <<bw, res>>
         ELSE /\ bw' = IF bw = 0 THEN 1 ELSE 2 * bw
              /\ UNCHANGED <<apc, st, en, anc, res>>
   /\ UNCHANGED <<aH, aA, aR>>
+SeekProbe == SeekProbeO(Overlapped(aH - bw))
 
 \* find(start, end, ancestor): one probe
-FindProbe ==
+FindProbeO(ov) ==
   /\ apc = "find"
   /\ IF st = en
      THEN /\ probes' = Append(probes, st)
           /\ apc' = "done"
-          /\ res' = IF Overlapped(st) THEN st ELSE anc
+          /\ res' = IF ov THEN st ELSE anc
           /\ UNCHANGED <<st, en, anc>>
      ELSE LET mid == (st + en) \div 2 IN
           /\ probes' = Append(probes, mid)
-          /\ IF Overlapped(mid)
+          /\ IF ov
              THEN st' = mid + 1 /\ anc' = mid /\ UNCHANGED <<en, apc, res>>
              ELSE IF mid > st
                   THEN en' = mid - 1 /\ UNCHANGED <<st, anc, apc, res>>
                   ELSE apc' = "done" /\ res' = anc /\ UNCHANGED <<st, en, anc>>
   /\ UNCHANGED <<aH, aA, aR, bw>>
+FindProbe == FindProbeO(Overlapped(IF st = en THEN st ELSE (st + en) \div 2))
 
 AStep == SeekExhausted \/ SeekProbe \/ FindProbe
 
 RECURSIVE Log2Ceil(_)
 Log2Ceil(n) == IF n <= 1 THEN 0 ELSE 1 + Log2Ceil((n + 1) \div 2)
 
-AncestorCorrect == apc = "done" => res = aA
+\* aA = -1: the peer lies about its ids (any answer to any probe); then only range, bound and termination are claimed
+AncestorCorrect == (apc = "done" /\ aA >= 0) => res = aA
+LiarHarmless    == apc = "done" => res \in 0..aH
 ProbesInRange   == \A i \in 1..Len(probes) : probes[i] >= 0 /\ probes[i] <= aH
 ProbesBounded   == Len(probes) <= 2 * Log2Ceil(aH + 1) + 3
-FindWindow      == apc = "find" => st <= en /\ en <= aH /\ anc <= aA
+FindWindow      == apc = "find" => st <= en /\ en <= aH /\ (aA >= 0 => anc <= aA)
 ATerminates     == <>(apc = "done")
 
 (* ------------------------------------------------------------------------------------------------------ *)
@@ -242,8 +248,13 @@ BSilent == DecTake \/ DecBlock \/ DecThrottle \/ DecDone \/ Handle \/ Finish
 \* (more than WarmCap decoded blocks behind a block the handler refused), the handler after its current block.
 \* download() returns only when all three have returned (g.Wait()).
 Stages == {"fetch", "dec", "handle"}
+RECURSIVE QueuedBlocks(_)
+QueuedBlocks(q) == IF q = <<>> THEN 0 ELSE Len(Head(q).bs) + QueuedBlocks(Tail(q))
+DecRemaining == (IF dec = None THEN 0 ELSE Len(dec.bs) - dec.i + 1) + QueuedBlocks(rawQ)
 StageExit(sg) ==
   /\ status # "run" /\ sg \in live
+  \* a decoder that does not listen to the cancel returns only if what it still has to push fits into the channel
+  /\ sg = "dec" => (DecListens \/ DecRemaining <= WarmCap - Len(warmQ))
   /\ live' = live \ {sg}
   /\ UNCHANGED varsB
 Returned == status # "run" /\ live = {}
@@ -360,6 +371,14 @@ InitA == /\ IdleB /\ IdleC /\ scen = NoScen /\ live = {}
               /\ bw = 0 /\ st = 0 /\ en = 0 /\ anc = 0 /\ res = 0 /\ probes = <<>>
               /\ apc = IF h = 0 THEN "done" ELSE "seek"
 NextA == AStep /\ UNCHANGED <<varsB, varsC, scen, live>>
+\* a peer that answers every probe as it likes (lying, non-monotone)
+InitAL == /\ IdleB /\ IdleC /\ scen = NoScen /\ live = {}
+          /\ \E h \in 0..MaxH :
+               /\ aH = h /\ aA = -1 /\ aR = 0
+               /\ bw = 0 /\ st = 0 /\ en = 0 /\ anc = 0 /\ res = 0 /\ probes = <<>>
+               /\ apc = IF h = 0 THEN "done" ELSE "seek"
+NextAL == (SeekExhausted \/ \E ov \in BOOLEAN : SeekProbeO(ov) \/ FindProbeO(ov)) /\ UNCHANGED <<varsB, varsC, scen, live>>
+SpecAL == InitAL /\ [][NextAL]_vars /\ WF_vars(NextAL)
 SpecA == InitA /\ [][NextA]_vars /\ WF_vars(NextA)
 
 \* ---- SpecB: scripted peers ----------------------------------------------------------------------------
